@@ -4,7 +4,7 @@ From Coq Require Import List Arith Bool.
 From M Require Import Base Flat FlatSpec.
 From P Require Import FlatP FlatOrder FlatMay.
 From M Require Hsm.
-From P Require HsmMay HsmIff.
+From P Require HsmMay HsmIff MayGen FlatMayExn HsmMayExn.
 Import ListNotations.
 
 (* Purity: for every machine whose transitions all have registered destinations, every
@@ -113,3 +113,32 @@ Example C12_hsm_nonvacuous :
   snd (Hsm.trigger_event hm ev (mkCtx 0 0 false) 0 0 f) = inr true /\
   snd (fst (Hsm.trigger_event hm ev (mkCtx 0 0 false) 0 0 f)) = [Hsm.Node 1 [Hsm.Node 2 [Hsm.Node 6 []]; Hsm.Node 3 [Hsm.Node 5 []]]].
 Proof. vm_compute. repeat split; reflexivity. Qed.
+
+(* ---------- every environment: callbacks may raise anything (last clause of the property) ---------- *)
+(* Flat machines, any machine / environment / registered state / event: may_<event> leaves the state
+   alone, runs only prepare-stage, condition and on_exception callbacks, and if an exception x reaches
+   the caller then x was raised by the callback that ran LAST, at its position - and either no
+   on_exception handler is registered (the evaluated callback's exception is raised) or that last
+   callback is itself an on_exception handler: with handlers registered the exception of an evaluated
+   callback never reaches the caller, it is routed to them. *)
+Theorem C12_any_env :
+  forall (mc : machine) (ev : env) (c : ctx) (e : event) (p : nat) (cur : state) tr s' r,
+    registered mc cur = true ->
+    can_trigger mc ev c e p cur = (tr, s', r) ->
+    s' = cur /\ Forall (fun it => MayGen.may_slot_f (it_slot it) = true) tr /\
+    (forall x, r = inl x ->
+       exists tr0 it, tr = tr0 ++ [it] /\ r_raise (ev (it_cb it) (p + length tr0)) = Some x /\
+                      (m_on_exception mc = [] \/ it_slot it = SOnException)).
+Proof. exact FlatMayExn.may_any_env. Qed.
+Print Assumptions C12_any_env.
+
+(* the same for hierarchical machines, every state tree / configuration / scope structure *)
+Theorem C12_hsm_any_env :
+  forall (hm : Hsm.hmachine) (ev : env) (c : ctx) (e : event) (p : nat) (f : Hsm.forest) tr f' r,
+    Hsm.can_trigger hm ev c e p f = (tr, f', r) ->
+    f' = f /\ Forall (fun it => MayGen.may_slot_f (it_slot it) = true) tr /\
+    (forall x, r = inl x ->
+       exists tr0 it, tr = tr0 ++ [it] /\ r_raise (ev (it_cb it) (p + length tr0)) = Some x /\
+                      (Hsm.hm_on_exception hm = [] \/ it_slot it = SOnException)).
+Proof. exact HsmMayExn.hsm_may_any_env. Qed.
+Print Assumptions C12_hsm_any_env.
